@@ -136,7 +136,22 @@ theorem mkBlock_body_valid {c : Ctx} {w : Weighting} {a : Tx} {cb : Nat}
       (sumVals (c.outs ++ [{ id := cb, cb := true, v := ({ maturity := c.cfg.maturity } : Params).reward + a.fee }])
         (mkBlock c a cb).ins) = none := by
   have hv := validateRawTx_validate hva
-  obtain ⟨_, _, hdis, hbal⟩ := validate_shape hv
+  obtain ⟨hnd1, hnd2, hdis, hbal⟩ := validate_shape hv
+  have h0 : dupInBody (mkBlock c a cb) = false := by
+    unfold dupInBody
+    have e1 : (mkBlock c a cb).ins = a.ins := rfl
+    have e2 : (mkBlock c a cb).outs.map (·.1) = a.outs ++ [cb] := by
+      simp [mkBlock, Function.comp_def]
+    have n1 : a.ins.Nodup := (nodupB_iff _).1 hnd1
+    have n2 : (a.outs ++ [cb]).Nodup := by
+      rw [List.nodup_append]
+      refine ⟨(nodupB_iff _).1 hnd2, by simp, ?_⟩
+      intro x hx y hy
+      have : y = cb := by simpa using hy
+      subst this
+      intro h; subst h; exact hcb2 hx
+    rw [e1, e2]
+    simp [n1, n2]
   generalize hd : ({ id := cb, cb := true, v := ({ maturity := c.cfg.maturity } : Params).reward + a.fee } : OutDef) = d
   have hdid : d.id = cb := by rw [← hd]
   have hdv : d.v = ({ maturity := c.cfg.maturity } : Params).reward + a.fee := by rw [← hd]
@@ -207,6 +222,6 @@ theorem mkBlock_body_valid {c : Ctx} {w : Weighting} {a : Tx} {cb : Nat}
     rw [e1, e2, sumVals_append, hins, houts, hcbv, hdv, hbal']
     simp; omega
   unfold validateBody
-  simp [htag, h1, h2, h3, h4, h5]
+  simp [htag, h0, h1, h2, h3, h4, h5]
 
 end GV.Pool
